@@ -299,12 +299,15 @@ func realInstances(c *fw.Ctx) []inst {
 	var r []inst
 	for _, n := range ns {
 		for _, b := range bs {
-			r = append(r, inst{"pool", n, 0, b, 3}, inst{"drain", n, 0, b, 3})
+			r = append(r, inst{"pool", n, 0, b, 3}, inst{"pool", n, 1, b, 3}, inst{"drain", n, 0, b, 3})
 			for form := 0; form <= 3; form++ {
 				r = append(r, inst{"pipeline", form, n, b, 3})
 			}
 			if b <= 1 {
 				r = append(r, inst{"privsel", n, 0, b, 2})
+			}
+			if b == 0 {
+				r = append(r, inst{"privsel", n, 2, 0, 2}) // the go statements inside a function literal called on the spot
 			}
 			for _, p := range [][2]int{{n, n}, {n, 1}, {1, n}} {
 				r = append(r, inst{"prodcons", p[0], p[1], b, 2})
